@@ -123,6 +123,18 @@ def residuals(p: Program, fi: FunctionInfo) -> List[str]:
         for c in ast.iter_child_nodes(n):
             parents[id(c)] = n
     priv_vars = _private_variables(p).get(fi.module.name, set())
+    # module aliases: `from ._private import extensions`, `import simfile._private.extensions as extensions`
+    mod_aliases: Dict[str, str] = {}
+    for st in fi.module.tree.body:
+        if isinstance(st, ast.ImportFrom):
+            try:
+                src_mod = p._abs_import(fi.module, st.level, st.module)
+            except Exception:
+                continue
+            for a in st.names:
+                cand = f"{src_mod}.{a.name}" if src_mod else a.name
+                if cand in p.modules:
+                    mod_aliases[a.asname or a.name] = cand
     for n in ast.walk(fi.node):
         if isinstance(n, ast.Name) and isinstance(n.ctx, ast.Load) and n.id in priv_vars and n.id not in shadow:
             out.append(f"private module-level table {n.id} (computed, not resolved)")
@@ -135,6 +147,9 @@ def residuals(p: Program, fi: FunctionInfo) -> List[str]:
                 par = parents.get(id(n))
                 if not (isinstance(par, ast.Call) and par.func is n):
                     out.append(f"nested function {n.id} used as a value")
+        elif isinstance(n, ast.Attribute) and isinstance(n.value, ast.Name) and isinstance(n.ctx, ast.Load) and n.value.id in mod_aliases \
+                and n.attr in _private_functions(p).get(mod_aliases[n.value.id], set()):
+            out.append(f"private helper {n.value.id}.{n.attr} (not inlined)")
         elif isinstance(n, ast.Call):
             f = n.func
             if not isinstance(f, (ast.Name, ast.Attribute)):
